@@ -1,7 +1,422 @@
-//! C17: correspondence + oracle runs (sub-commands `c17` / `c17-*`).
+//! C17: a TCP endpoint withstands arbitrary segments.  Uses the two-endpoint engine of `c01.rs`
+//! (same op lines, same model driver).
+//!
+//! `c17` (fuzz): the victim is brought to each reachable state by a legitimate prefix, then
+//! attacked with segments from the grid flags(64) x seq around the window edges x ack around
+//! SND.UNA/SND.NXT x window (0, 1, small, 65535, random, shrinking below what is queued) x
+//! length (0, 1, MSS-1, MSS, small), interleaved with legitimate traffic, writes, `segments()`,
+//! timers and reads.  Oracles: no panic, new data stays inside the advertised window,
+//! unacceptable segments are no-ops.
+//!
+//! `c17-outside`: an established connection carrying a long genuine stream; only segments that
+//! lie entirely outside the receive window are injected (so a conforming receiver ignores
+//! them); the C01 stream oracles (prefix, convergence) must still hold.
+use super::c01::*;
+use elvis_core::protocols::tcp::verif::State;
 use hcommon::*;
 
+const RULE_FUZZ: &str = "victim endpoint brought to a target state (all nine) by a legitimate exchange with a real peer Tcb, then 40 ops: forged segments from the grid flags(64) x seq {RCV.NXT-2..+1, +WND-1..+WND+1, +2^31, random, old data} x ack {SND.UNA-1..SND.NXT+1, random} x wnd {0,1,small,65535,random,shrinking} x len {0,1,small,MSS-1,MSS}, interleaved with legitimate traffic, writes, segments(), ticks, reads; a case is non-trivial if at least 5 forged segments were processed without the TCB being deleted; distinct = hash of its op lines";
+const RULE_OUTSIDE: &str = "established connection, genuine stream of > 64 KiB towards the victim, forged text-bearing segments entirely outside the receive window (beyond the right edge by 0..2000 and far ahead, or entirely old), then the loss-free phase; C01 prefix/convergence oracles; non-trivial if the victim delivered > 64 KiB";
+
+#[derive(Clone, Copy, Debug, PartialEq, Eq)]
+enum Target {
+    SynSent,
+    SynReceivedListen,
+    SynReceivedOpen,
+    Established,
+    EstablishedBusy,
+    FinWait1,
+    FinWait2,
+    CloseWait,
+    Closing,
+    LastAck,
+    TimeWait,
+}
+const TARGETS: [Target; 11] = [
+    Target::SynSent,
+    Target::SynReceivedListen,
+    Target::SynReceivedOpen,
+    Target::Established,
+    Target::EstablishedBusy,
+    Target::FinWait1,
+    Target::FinWait2,
+    Target::CloseWait,
+    Target::Closing,
+    Target::LastAck,
+    Target::TimeWait,
+];
+
+struct Net {
+    pending: Vec<(SideId, usize)>,
+}
+impl Net {
+    fn emit(&mut self, ex: &mut Exec, x: SideId, out: &mut Out) {
+        if ex.dead || ex.side(x).tcb.is_none() {
+            return;
+        }
+        ex.apply(&format!("emit {}", x.name()), out);
+        for i in ex.last_emitted.clone() {
+            self.pending.push((x.peer(), i));
+        }
+    }
+    /// deliver everything pending for `to` (FIFO)
+    fn flush_to(&mut self, ex: &mut Exec, to: SideId, out: &mut Out) {
+        let (mine, rest): (Vec<_>, Vec<_>) = std::mem::take(&mut self.pending).into_iter().partition(|(t, _)| *t == to);
+        self.pending = rest;
+        for (t, i) in mine {
+            if ex.dead {
+                return;
+            }
+            ex.apply(&format!("deliver {} {}", t.name(), i), out);
+            for j in ex.last_emitted.clone() {
+                self.pending.push((t.peer(), j));
+            }
+        }
+    }
+    /// `rounds` full exchanges V -> P -> V
+    fn pump(&mut self, ex: &mut Exec, v: SideId, rounds: u32, out: &mut Out) {
+        for _ in 0..rounds {
+            self.emit(ex, v, out);
+            self.flush_to(ex, v.peer(), out);
+            self.emit(ex, v.peer(), out);
+            self.flush_to(ex, v, out);
+        }
+    }
+}
+
+fn state_of(ex: &Exec, x: SideId) -> Option<State> {
+    ex.snap_ref(x).map(|s| s.state)
+}
+
+/// legitimate prefix that brings victim `v` to `target`
+fn prefix(ex: &mut Exec, net: &mut Net, v: SideId, target: Target, rng: &mut Rng, out: &mut Out, seed: &mut u64) {
+    let p = v.peer();
+    let mtu = pick_mtu(rng);
+    let (iss_v, iss_p) = (pick_isn(rng), pick_isn(rng));
+    let mut write = |ex: &mut Exec, x: SideId, n: u64, out: &mut Out| {
+        *seed += 1;
+        ex.apply(&format!("write {} {} {}", x.name(), n, *seed), out);
+    };
+    match target {
+        Target::SynSent => {
+            ex.apply(&format!("open {} {} {}", v.name(), iss_v, mtu), out);
+            if rng.chance(1, 2) {
+                ex.apply(&format!("listen {} {} {}", p.name(), iss_p, mtu), out);
+            }
+            if rng.chance(1, 2) {
+                write(ex, v, rng.range(1, 3000), out);
+            }
+            if rng.chance(1, 2) {
+                net.emit(ex, v, out);
+            }
+            return;
+        }
+        Target::SynReceivedListen => {
+            ex.apply(&format!("listen {} {} {}", v.name(), iss_v, mtu), out);
+            ex.apply(&format!("open {} {} {}", p.name(), iss_p, mtu), out);
+            net.emit(ex, p, out);
+            net.flush_to(ex, v, out);
+            if rng.chance(1, 2) {
+                write(ex, v, rng.range(1, 3000), out);
+            }
+            if rng.chance(1, 2) {
+                net.emit(ex, v, out);
+            }
+            return;
+        }
+        Target::SynReceivedOpen => {
+            ex.apply(&format!("open {} {} {}", v.name(), iss_v, mtu), out);
+            ex.apply(&format!("open {} {} {}", p.name(), iss_p, mtu), out);
+            net.emit(ex, p, out);
+            net.emit(ex, v, out);
+            net.flush_to(ex, v, out);
+            if rng.chance(1, 2) {
+                write(ex, v, rng.range(1, 3000), out);
+            }
+            return;
+        }
+        _ => {}
+    }
+    // handshake (active or passive victim)
+    if rng.chance(1, 2) {
+        ex.apply(&format!("open {} {} {}", v.name(), iss_v, mtu), out);
+        ex.apply(&format!("listen {} {} {}", p.name(), iss_p, mtu), out);
+    } else {
+        ex.apply(&format!("listen {} {} {}", v.name(), iss_v, mtu), out);
+        ex.apply(&format!("open {} {} {}", p.name(), iss_p, mtu), out);
+    }
+    net.pump(ex, v, 3, out);
+    let data = |rng: &mut Rng| match rng.below(10) {
+        0..=2 => 1,
+        3..=5 => rng.range(2, 100),
+        6..=8 => rng.range(100, 5000),
+        _ => rng.range(5000, 70000),
+    };
+    if rng.chance(2, 3) {
+        write(ex, v, data(rng), out);
+    }
+    if rng.chance(1, 2) {
+        write(ex, p, data(rng), out);
+    }
+    match target {
+        Target::Established => {
+            net.pump(ex, v, 2, out);
+        }
+        Target::EstablishedBusy => {
+            // data in flight in both directions, nothing acknowledged yet, text left unsent
+            let n = if rng.chance(1, 5) { rng.range(10000, 80000) } else { rng.range(1000, 10000) };
+            write(ex, v, n, out);
+            net.emit(ex, v, out);
+            net.emit(ex, p, out);
+            if rng.chance(1, 2) {
+                net.flush_to(ex, v, out);
+            }
+        }
+        Target::FinWait1 => {
+            net.pump(ex, v, 1, out);
+            ex.apply(&format!("close {}", v.name()), out);
+            if rng.chance(1, 2) {
+                net.emit(ex, v, out);
+            }
+        }
+        Target::FinWait2 => {
+            net.pump(ex, v, 2, out);
+            ex.apply(&format!("close {}", v.name()), out);
+            net.pump(ex, v, 2, out);
+        }
+        Target::CloseWait => {
+            net.pump(ex, v, 2, out);
+            ex.apply(&format!("close {}", p.name()), out);
+            net.emit(ex, p, out);
+            net.flush_to(ex, v, out);
+        }
+        Target::Closing => {
+            net.pump(ex, v, 2, out);
+            ex.apply(&format!("close {}", v.name()), out);
+            ex.apply(&format!("close {}", p.name()), out);
+            net.emit(ex, p, out);
+            net.flush_to(ex, v, out);
+        }
+        Target::LastAck => {
+            net.pump(ex, v, 2, out);
+            ex.apply(&format!("close {}", p.name()), out);
+            net.emit(ex, p, out);
+            net.flush_to(ex, v, out);
+            ex.apply(&format!("close {}", v.name()), out);
+            if rng.chance(1, 2) {
+                net.emit(ex, v, out);
+            }
+        }
+        Target::TimeWait => {
+            net.pump(ex, v, 2, out);
+            ex.apply(&format!("close {}", v.name()), out);
+            net.pump(ex, v, 2, out);
+            ex.apply(&format!("close {}", p.name()), out);
+            net.emit(ex, p, out);
+            net.flush_to(ex, v, out);
+        }
+        _ => {}
+    }
+}
+
+/// one forged segment from the grid, relative to the victim's current sequence spaces
+fn forged(ex: &Exec, v: SideId, rng: &mut Rng) -> Option<String> {
+    let s = ex.snap_ref(v)?;
+    let (una, nxt_s) = (s.snd.0, s.snd.1);
+    let (rnxt, rwnd) = (s.rcv.1, s.rcv.2 as u32);
+    let mss = (s.mtu.max(51) - 50) as u64;
+    let len: u64 = match rng.below(8) {
+        0 | 1 | 2 => 0,
+        3 => 1,
+        4 => rng.range(2, 20),
+        5 => mss - 1,
+        6 => mss,
+        _ => rng.below(mss + 1),
+    };
+    let seq: u32 = match rng.below(14) {
+        0 => rnxt.wrapping_sub(2),
+        1 => rnxt.wrapping_sub(1),
+        2 | 3 => rnxt,
+        4 => rnxt.wrapping_add(1),
+        5 => rnxt.wrapping_add(rwnd).wrapping_sub(1),
+        6 => rnxt.wrapping_add(rwnd),
+        7 => rnxt.wrapping_add(rwnd).wrapping_add(1),
+        8 => rnxt.wrapping_add(1 << 31),
+        9 => rng.next() as u32,
+        10 => rnxt.wrapping_sub(len as u32),
+        11 => rnxt.wrapping_sub(len as u32).wrapping_sub(1),
+        12 => rnxt.wrapping_add(rng.below(3000) as u32),
+        _ => rnxt.wrapping_add(rwnd).wrapping_add(rng.below(200000) as u32),
+    };
+    let ack: u32 = match rng.below(12) {
+        10 => una.wrapping_add(1 << 31).wrapping_add(rng.below(3) as u32).wrapping_sub(1),
+        11 => nxt_s.wrapping_add(1 << 31).wrapping_add(rng.below(3) as u32).wrapping_sub(1),
+        0 => una.wrapping_sub(1),
+        1 => una,
+        2 => una.wrapping_add(1),
+        3 => una.wrapping_add(nxt_s.wrapping_sub(una) / 2),
+        4 => nxt_s.wrapping_sub(1),
+        5 | 6 => nxt_s,
+        7 => nxt_s.wrapping_add(1),
+        8 => s.snd.5,
+        _ => rng.next() as u32,
+    };
+    let queued: u64 = s.retransmit.iter().map(|t| t.1.len() as u64).sum();
+    let wnd: u64 = match rng.below(8) {
+        0 => 0,
+        1 => 1,
+        2 => rng.range(2, 100),
+        3 | 4 => 65535,
+        5 => rng.below(65536),
+        6 => queued.saturating_sub(1).min(65535),
+        _ => (queued / 2).min(65535),
+    };
+    // all 64 combinations, biased towards the ones that get far into process_segment
+    let ctl: u64 = match rng.below(10) {
+        0..=3 => rng.below(64),
+        4 | 5 => 16,
+        6 => 16 | 8,
+        7 => 16 | 1,
+        8 => *rng.pick(&[2u64, 18, 4, 20, 17, 1, 0, 3, 19]),
+        _ => 16 | rng.below(16),
+    };
+    Some(format!("inject {} {} {} {} {} {} {}", v.name(), ctl, seq, ack, wnd, len, rng.below(1_000_000)))
+}
+
+fn fuzz_case(ex: &mut Exec, rng: &mut Rng, out: &mut Out, target: Target, attacks: u64) -> u64 {
+    let v = if rng.chance(3, 4) { SideId::A } else { SideId::B };
+    let p = v.peer();
+    let mut net = Net { pending: vec![] };
+    let mut seed = rng.below(1_000_000);
+    prefix(ex, &mut net, v, target, rng, out, &mut seed);
+    if let Some(st) = state_of(ex, v) {
+        out.count(&format!("reached.{}", state_str(st)));
+    } else {
+        out.count("reached.none");
+    }
+    let mut processed = 0;
+    for _ in 0..attacks {
+        if ex.dead || ex.side(v).tcb.is_none() {
+            break;
+        }
+        match rng.below(20) {
+            0..=11 => {
+                if let Some(l) = forged(ex, v, rng) {
+                    ex.apply(&l, out);
+                    processed += 1;
+                    if rng.chance(1, 2) {
+                        net.emit(ex, v, out);
+                    }
+                }
+            }
+            12 => net.emit(ex, v, out),
+            13 => {
+                net.flush_to(ex, p, out);
+                net.emit(ex, p, out);
+            }
+            14 => {
+                // legitimate traffic from the peer, possibly out of order
+                if let Some(k) = net.pending.iter().position(|(t, _)| *t == v) {
+                    let (t, i) = net.pending.remove(k);
+                    ex.apply(&format!("deliver {} {}", t.name(), i), out);
+                }
+            }
+            15 | 16 => {
+                seed += 1;
+                let n = *rng.pick(&[1u64, 10, 500, 3000, 20000]);
+                ex.apply(&format!("write {} {} {}", v.name(), rng.range(1, n), seed), out);
+                net.emit(ex, v, out);
+            }
+            17 => ex.apply(&format!("tick {} {}", v.name(), if rng.chance(1, 2) { 150 } else { 5 }), out),
+            18 => ex.apply(&format!("read {}", v.name()), out),
+            _ => {
+                // old legitimate segment again (duplicate)
+                if !ex.history.is_empty() {
+                    let i = rng.below(ex.history.len() as u64);
+                    ex.apply(&format!("deliver {} {}", v.name(), i), out);
+                }
+            }
+        }
+    }
+    processed
+}
+
+fn outside_case(ex: &mut Exec, rng: &mut Rng, out: &mut Out) {
+    // A sends a long stream to B (victim); forged segments entirely outside B's window
+    let mtu = rng.range(600, 1600);
+    let (iss_a, iss_b) = (pick_isn(rng), pick_isn(rng));
+    let mut net = Net { pending: vec![] };
+    ex.apply(&format!("open A {} {}", iss_a, mtu), out);
+    ex.apply(&format!("listen B {} {}", iss_b, mtu), out);
+    net.pump(ex, SideId::A, 3, out);
+    let mut seed = rng.below(1_000_000);
+    let total: u64 = rng.range(70_000, 90_000);
+    let mut written = 0u64;
+    let mut injected = 0;
+    while written < total && !ex.dead {
+        let n = rng.range(500, 9000).min(total - written);
+        seed += 1;
+        written += n;
+        ex.apply(&format!("write A {} {}", n, seed), out);
+        if injected < 6 {
+            if let Some(s) = ex.snap_ref(SideId::B) {
+                let (rnxt, rwnd, snxt) = (s.rcv.1, s.rcv.2 as u32, s.snd.1);
+                let len = rng.range(1, (mtu - 50).min(1000));
+                let seq = match rng.below(4) {
+                    0 => rnxt.wrapping_add(rwnd).wrapping_add(rng.below(2000) as u32),
+                    1 => rnxt.wrapping_add(rwnd).wrapping_add(1),
+                    2 => rnxt.wrapping_sub(len as u32).wrapping_sub(2 + rng.below(5000) as u32),
+                    _ => rnxt.wrapping_add(rwnd).wrapping_add(rng.below(1 << 20) as u32),
+                };
+                ex.apply(&format!("inject B 16 {} {} 65535 {} {}", seq, snxt, len, 7_000_000 + injected), out);
+                injected += 1;
+            }
+        }
+        net.pump(ex, SideId::A, 1, out);
+        if rng.chance(1, 2) {
+            ex.apply("read B", out);
+        }
+    }
+    if ex.dead {
+        return;
+    }
+    let mut pending = std::mem::take(&mut net.pending);
+    ex.fair_phase(&mut pending, out, 60, true);
+}
+
 pub fn run(args: &Args) {
-    eprintln!("hcore: {} not implemented yet", args.prop);
-    std::process::exit(2);
+    if args.prop.ends_with("sched") {
+        // the two-endpoint schedules of C01 under the C17 oracles (legitimate traffic only)
+        return super::c01::run(args);
+    }
+    let mut out = Out::new(&args.out);
+    out.max_failures = 60;
+    let outside = args.prop.ends_with("outside");
+    let rule = if outside { RULE_OUTSIDE } else { RULE_FUZZ };
+    if args.replay.is_some() {
+        replay(args, &mut out, Oracles { prefix: true, c17: true });
+        out.finish(rule);
+        return;
+    }
+    let attacks: u64 = args.extra.get("attacks").and_then(|s| s.parse().ok()).unwrap_or(40);
+    let mut rng = Rng::new(args.seed ^ if outside { 0x5151 } else { 0x1717 });
+    for c in 0..args.cases {
+        let mut r = rng.fork();
+        let mut ex = Exec::new(Oracles { prefix: true, c17: true });
+        out.begin_case(c);
+        if outside {
+            outside_case(&mut ex, &mut r, &mut out);
+            if ex.b.delivered.len() > 65536 {
+                out.mark_nontrivial();
+            }
+        } else {
+            let target = TARGETS[(c % TARGETS.len() as u64) as usize];
+            let n = fuzz_case(&mut ex, &mut r, &mut out, target, attacks);
+            if n >= 5 {
+                out.mark_nontrivial();
+            }
+        }
+        out.end_case();
+    }
+    out.finish(rule);
 }
